@@ -80,7 +80,8 @@ func loopTagCompiler(node render.BlockNode) (func(io.Writer, render.Context) err
 
 		iter := makeIterator(val)
 		if iter == nil {
-			return nil
+			// nil and non-iterable values select nothing, so the else branch applies
+			iter = sliceWrapper(reflect.ValueOf([]any{}))
 		}
 
 		iter, err = applyLoopModifiers(stmt.Loop, ctx, iter)
